@@ -1,18 +1,588 @@
-//! C17 — (stub, under construction)
+//! C17 — text preprocessing only reorders marks and applies documented decompositions.
+//!
+//! Function under test: `allsorts::scripts::preprocess_text` (and `Font::map_glyphs`, which calls
+//! it). Oracle in two layers:
+//!
+//!  1. relational checks that need no big tables beyond "which characters are marks" (multiset
+//!     preserved / explained by the documented rewrites, class-0 characters keep their place,
+//!     marks stay inside their run);
+//!  2. an exact reference model per script class, written from the specifications (Unicode
+//!     canonical combining classes and decompositions generated from Python's `unicodedata` into
+//!     `c17_tables.rs`, the modified-combining-class permutation documented in HarfBuzz / the SBL
+//!     Hebrew manual, UTR #53 AMTRA, the OpenType script-development lists of split vowels and of
+//!     prohibited vowel sequences). The model never calls allsorts.
+//!
+//! Where the documents leave a choice open (order of "sort" vs. "rewrite", overlapping prohibited
+//! pairs, cross-script above-base marks before SARA AM) the exact check is restricted to the
+//! inputs on which all readings agree (class `exact-skipped:*`); the relational layer still runs.
+//!
+//! `--mode strict` additionally turns "documented rewrite not applied" (allowed by the letter of
+//! C17, which only limits what may change) into violations (rule `missed-rewrite`).
 
 use super::Prop;
 use crate::rt::*;
+use allsorts::binary::read::ReadScope;
+use allsorts::font::{Font, MatchingPresentation};
+use allsorts::font_data::{DynamicFontTableProvider, FontData};
+use allsorts::scripts::preprocess_text;
+use std::panic::{self, AssertUnwindSafe};
 
-pub struct C17 {}
+#[path = "c17_tables.rs"]
+mod c17_tables;
+use c17_tables as tb;
 
-impl C17 {
-    pub fn new(_cx: &mut Ctx) -> C17 {
-        C17 {}
+// ---------------------------------------------------------------------------------------------
+// Script tags (written out here, not taken from allsorts::tag)
+// ---------------------------------------------------------------------------------------------
+
+const fn t(b: &[u8; 4]) -> u32 {
+    ((b[0] as u32) << 24) | ((b[1] as u32) << 16) | ((b[2] as u32) << 8) | b[3] as u32
+}
+
+#[derive(Copy, Clone, PartialEq, Eq, Debug)]
+enum Class {
+    Arabic,
+    Syriac,
+    Default,
+    Myanmar,
+    ThaiLao,
+    Indic,
+    /// the "version 2" Indic tags: callers are expected to pass the v1 tag; either the Indic or the
+    /// default treatment satisfies the property
+    Indic2,
+    Khmer,
+}
+
+impl Class {
+    fn name(self) -> &'static str {
+        match self {
+            Class::Arabic => "arabic",
+            Class::Syriac => "syriac",
+            Class::Default => "default",
+            Class::Myanmar => "myanmar",
+            Class::ThaiLao => "thai-lao",
+            Class::Indic => "indic",
+            Class::Indic2 => "indic2",
+            Class::Khmer => "khmer",
+        }
     }
 }
 
-impl Prop for C17 {
-    fn case(&mut self, cx: &mut Ctx, _rng: &mut Rng) {
-        cx.inconclusive("not-implemented");
+#[derive(Copy, Clone, PartialEq, Eq, Debug)]
+enum Blk {
+    Latin,
+    Hebrew,
+    Arabic,
+    Syriac,
+    Thai,
+    Lao,
+    Deva,
+    Beng,
+    Guru,
+    Gujr,
+    Orya,
+    Taml,
+    Telu,
+    Knda,
+    Mlym,
+    Sinh,
+    Khmer,
+    Myanmar,
+    Tibetan,
+    Greek,
+    Cyrillic,
+}
+
+const BLOCKS: &[(Blk, &[(u32, u32)])] = &[
+    (Blk::Latin, &[(0x20, 0x7E), (0xA0, 0x17F), (0x300, 0x36F), (0x1AB0, 0x1ACE), (0x1DC0, 0x1DFF), (0x20D0, 0x20F0)]),
+    (Blk::Hebrew, &[(0x591, 0x5C7), (0x5D0, 0x5EA), (0xFB1D, 0xFB4F)]),
+    (Blk::Arabic, &[(0x600, 0x6FF), (0x750, 0x77F), (0x8A0, 0x8FF)]),
+    (Blk::Syriac, &[(0x700, 0x74F)]),
+    (Blk::Thai, &[(0xE01, 0xE5B)]),
+    (Blk::Lao, &[(0xE81, 0xEDF)]),
+    (Blk::Deva, &[(0x900, 0x97F), (0xA8E0, 0xA8FF), (0x1CD0, 0x1CFA)]),
+    (Blk::Beng, &[(0x980, 0x9FE)]),
+    (Blk::Guru, &[(0xA01, 0xA76)]),
+    (Blk::Gujr, &[(0xA81, 0xAFF)]),
+    (Blk::Orya, &[(0xB01, 0xB77)]),
+    (Blk::Taml, &[(0xB82, 0xBFA)]),
+    (Blk::Telu, &[(0xC00, 0xC7F)]),
+    (Blk::Knda, &[(0xC80, 0xCF2)]),
+    (Blk::Mlym, &[(0xD00, 0xD7F)]),
+    (Blk::Sinh, &[(0xD81, 0xDF4)]),
+    (Blk::Khmer, &[(0x1780, 0x17F9)]),
+    (Blk::Myanmar, &[(0x1000, 0x109F), (0xA9E0, 0xA9FE), (0xAA60, 0xAA7F)]),
+    (Blk::Tibetan, &[(0xF00, 0xFDA)]),
+    (Blk::Greek, &[(0x370, 0x3FF), (0x1F00, 0x1FFE)]),
+    (Blk::Cyrillic, &[(0x400, 0x52F), (0x2DE0, 0x2DFF), (0xA66F, 0xA69F)]),
+];
+
+struct Sc {
+    tag: u32,
+    name: &'static str,
+    class: Class,
+    home: Blk,
+    weight: u32,
+    /// Bengali ya+nukta recomposition applies
+    beng: bool,
+    /// Kannada ra-halant-ZWJ swap applies
+    knda: bool,
+}
+
+const fn sc(tag: &[u8; 4], name: &'static str, class: Class, home: Blk, weight: u32) -> Sc {
+    Sc { tag: t(tag), name, class, home, weight, beng: false, knda: false }
+}
+
+const SCRIPTS: &[Sc] = &[
+    sc(b"arab", "arab", Class::Arabic, Blk::Arabic, 16),
+    sc(b"syrc", "syrc", Class::Syriac, Blk::Syriac, 5),
+    sc(b"thai", "thai", Class::ThaiLao, Blk::Thai, 8),
+    sc(b"lao ", "lao", Class::ThaiLao, Blk::Lao, 7),
+    sc(b"deva", "deva", Class::Indic, Blk::Deva, 5),
+    Sc { tag: t(b"beng"), name: "beng", class: Class::Indic, home: Blk::Beng, weight: 6, beng: true, knda: false },
+    sc(b"guru", "guru", Class::Indic, Blk::Guru, 3),
+    sc(b"gujr", "gujr", Class::Indic, Blk::Gujr, 4),
+    sc(b"orya", "orya", Class::Indic, Blk::Orya, 3),
+    sc(b"taml", "taml", Class::Indic, Blk::Taml, 3),
+    sc(b"telu", "telu", Class::Indic, Blk::Telu, 4),
+    Sc { tag: t(b"knda"), name: "knda", class: Class::Indic, home: Blk::Knda, weight: 6, beng: false, knda: true },
+    sc(b"mlym", "mlym", Class::Indic, Blk::Mlym, 3),
+    sc(b"sinh", "sinh", Class::Indic, Blk::Sinh, 4),
+    sc(b"dev2", "dev2", Class::Indic2, Blk::Deva, 1),
+    Sc { tag: t(b"bng2"), name: "bng2", class: Class::Indic2, home: Blk::Beng, weight: 1, beng: true, knda: false },
+    sc(b"gur2", "gur2", Class::Indic2, Blk::Guru, 1),
+    sc(b"gjr2", "gjr2", Class::Indic2, Blk::Gujr, 1),
+    sc(b"ory2", "ory2", Class::Indic2, Blk::Orya, 1),
+    sc(b"tml2", "tml2", Class::Indic2, Blk::Taml, 1),
+    sc(b"tel2", "tel2", Class::Indic2, Blk::Telu, 1),
+    Sc { tag: t(b"knd2"), name: "knd2", class: Class::Indic2, home: Blk::Knda, weight: 1, beng: false, knda: true },
+    sc(b"mlm2", "mlm2", Class::Indic2, Blk::Mlym, 1),
+    sc(b"khmr", "khmr", Class::Khmer, Blk::Khmer, 7),
+    sc(b"mymr", "mymr", Class::Myanmar, Blk::Myanmar, 3),
+    sc(b"mym2", "mym2", Class::Myanmar, Blk::Myanmar, 3),
+    sc(b"latn", "latn", Class::Default, Blk::Latin, 5),
+    sc(b"hebr", "hebr", Class::Default, Blk::Hebrew, 6),
+    sc(b"DFLT", "DFLT", Class::Default, Blk::Latin, 3),
+    sc(b"cyrl", "cyrl", Class::Default, Blk::Cyrillic, 1),
+    sc(b"grek", "grek", Class::Default, Blk::Greek, 1),
+    sc(b"tibt", "tibt", Class::Default, Blk::Tibetan, 2),
+    // unrelated / garbage tags: default treatment
+    sc(b"thaa", "other", Class::Default, Blk::Arabic, 1),
+    sc(b"nko ", "other", Class::Default, Blk::Arabic, 1),
+    sc(b"ARAB", "other", Class::Default, Blk::Arabic, 1),
+    sc(b"\0\0\0\0", "other", Class::Default, Blk::Hebrew, 1),
+    sc(b"\xff\xff\xff\xff", "other", Class::Default, Blk::Thai, 1),
+    sc(b"lao\0", "other", Class::Default, Blk::Lao, 1),
+];
+
+fn script_for_tag(tag: u32) -> Option<&'static Sc> {
+    SCRIPTS.iter().find(|s| s.tag == tag)
+}
+
+// ---------------------------------------------------------------------------------------------
+// Character data (from the generated table) and the documented rewrite lists
+// ---------------------------------------------------------------------------------------------
+
+const DOTTED_CIRCLE: char = '\u{25CC}';
+const ZWJ: char = '\u{200D}';
+const ZWNJ: char = '\u{200C}';
+const CGJ: char = '\u{034F}';
+const SHADDA: char = '\u{0651}';
+
+/// UTR #53 section 3, Modifier Combining Marks (MCM).
+const MCM: &[char] = &[
+    '\u{0654}', '\u{0655}', '\u{0658}', '\u{06DC}', '\u{06E3}', '\u{06E7}', '\u{06E8}', '\u{08CA}', '\u{08CB}',
+    '\u{08CD}', '\u{08CE}', '\u{08CF}', '\u{08D3}', '\u{08F3}',
+];
+
+fn is_mcm(c: char) -> bool {
+    MCM.contains(&c)
+}
+
+/// Below-base marks of Thai and Lao (SARA U, SARA UU, PHINTHU; Lao U, UU, PALI VIRAMA, SEMIVOWEL LO);
+/// every other non-spacing mark of the two blocks sits above the base.
+const THAI_LAO_BELOW: &[u32] = &[0x0E38, 0x0E39, 0x0E3A, 0x0EB8, 0x0EB9, 0x0EBA, 0x0EBC];
+
+/// Khmer split vowels (Microsoft "Developing OpenType Fonts for Khmer Script"): the pre-base part
+/// U+17C1 is inserted in front of them.
+const KHMER_SPLIT: &[char] = &['\u{17BE}', '\u{17BF}', '\u{17C0}', '\u{17C4}', '\u{17C5}'];
+const KHMER_E: char = '\u{17C1}';
+
+/// Independent vowel + dependent vowel sequences that must not be used (they look like another
+/// letter); a dotted circle is inserted between the two. Microsoft USE / Unicode core spec tables.
+const PROHIBITED_PAIRS: &[(u32, u32)] = &[
+    // Devanagari
+    (0x0905, 0x0946), (0x0905, 0x093E), (0x0909, 0x0941), (0x090F, 0x0945), (0x090F, 0x0946), (0x090F, 0x0947),
+    (0x0905, 0x0949), (0x0906, 0x0945), (0x0905, 0x094A), (0x0906, 0x0946), (0x0905, 0x094B), (0x0906, 0x0947),
+    (0x0905, 0x094C), (0x0906, 0x0948), (0x0905, 0x0945), (0x0905, 0x093A), (0x0905, 0x093B), (0x0906, 0x093A),
+    (0x0905, 0x094F), (0x0905, 0x0956), (0x0905, 0x0957),
+    // Bengali
+    (0x0985, 0x09BE), (0x098B, 0x09C3), (0x098C, 0x09E2),
+    // Gurmukhi
+    (0x0A05, 0x0A3E), (0x0A72, 0x0A3F), (0x0A72, 0x0A40), (0x0A73, 0x0A41), (0x0A73, 0x0A42), (0x0A72, 0x0A47),
+    (0x0A05, 0x0A48), (0x0A73, 0x0A4B), (0x0A05, 0x0A4C),
+    // Gujarati
+    (0x0A85, 0x0ABE), (0x0A85, 0x0AC5), (0x0A85, 0x0AC7), (0x0A85, 0x0AC8), (0x0A85, 0x0AC9), (0x0A85, 0x0ACB),
+    (0x0A85, 0x0ACC), (0x0AC5, 0x0ABE),
+    // Oriya
+    (0x0B05, 0x0B3E), (0x0B0F, 0x0B57), (0x0B13, 0x0B57),
+    // Telugu
+    (0x0C12, 0x0C55), (0x0C12, 0x0C4C), (0x0C3F, 0x0C55), (0x0C46, 0x0C55), (0x0C4A, 0x0C55),
+    // Kannada
+    (0x0C89, 0x0CBE), (0x0C92, 0x0CCC), (0x0C8B, 0x0CBE),
+    // Malayalam
+    (0x0D07, 0x0D57), (0x0D09, 0x0D57), (0x0D0E, 0x0D46), (0x0D12, 0x0D3E), (0x0D12, 0x0D57),
+    // Sinhala
+    (0x0D85, 0x0DCF), (0x0D85, 0x0DD0), (0x0D85, 0x0DD1), (0x0D8B, 0x0DDF), (0x0D8D, 0x0DD8), (0x0D8F, 0x0DDF),
+    (0x0D91, 0x0DCA), (0x0D91, 0x0DD9), (0x0D91, 0x0DDA), (0x0D91, 0x0DDC), (0x0D91, 0x0DDD), (0x0D94, 0x0DDF),
+];
+/// Devanagari RA + VIRAMA (reph) + LETTER I looks like LETTER II: dotted circle before the I.
+const REPH_I: [char; 3] = ['\u{0930}', '\u{094D}', '\u{0907}'];
+
+const KNDA_RA: char = '\u{0CB0}';
+const KNDA_HALANT: char = '\u{0CCD}';
+
+fn is_prohibited(a: char, b: char) -> bool {
+    PROHIBITED_PAIRS.contains(&(a as u32, b as u32))
+}
+
+fn is_prohibited_second(c: char) -> bool {
+    c == REPH_I[2] || PROHIBITED_PAIRS.iter().any(|&(_, b)| b == c as u32)
+}
+
+fn matra_split(c: char) -> Option<&'static [u32; 3]> {
+    let cp = c as u32;
+    if !(0x0900..0x0E00).contains(&cp) {
+        return None;
+    }
+    tb::MATRA_SPLITS.iter().find(|(k, _)| *k == cp).map(|(_, v)| v)
+}
+
+fn am_split(c: char) -> Option<(char, char)> {
+    let cp = c as u32;
+    if cp != 0x0E33 && cp != 0x0EB3 {
+        return None;
+    }
+    tb::AM_SPLITS
+        .iter()
+        .find(|(k, _)| *k == cp)
+        .and_then(|(_, v)| Some((char::from_u32(v[0])?, char::from_u32(v[1])?)))
+}
+
+fn ch(cp: u32) -> char {
+    char::from_u32(cp).unwrap_or('\u{FFFD}')
+}
+
+struct Ucd {
+    /// canonical combining class per code point (Python's table), 0 when unknown
+    ccc: Vec<u8>,
+    /// 1 = assigned in the Python table (the model knows the class), 0 = the model knows nothing
+    known: Vec<u8>,
+    /// ccc -> modified combining class
+    mcc_map: [u8; 256],
+}
+
+impl Ucd {
+    fn new() -> Ucd {
+        let mut ccc = vec![0u8; 0x110000];
+        let mut known = vec![0u8; 0x110000];
+        for &(lo, hi) in tb::ASSIGNED {
+            for cp in lo..=hi {
+                known[cp as usize] = 1;
+            }
+        }
+        for &(lo, hi, v) in tb::CCC {
+            for cp in lo..=hi {
+                ccc[cp as usize] = v;
+            }
+        }
+        // Modified combining classes: HarfBuzz hb-unicode.hh / SBL Hebrew Font User Manual 1.5x
+        // (as documented in allsorts' unicode::mcc): Hebrew points are permuted, the Telugu length
+        // marks (84, 91) and Thai SARA U/UU (103) move below the virama class; every other class
+        // keeps its canonical value (Arabic is handled by AMTRA, not by a permutation).
+        let mut m = [0u8; 256];
+        for i in 0..256 {
+            m[i] = i as u8;
+        }
+        let hebrew: [(u8, u8); 17] = [
+            (10, 22), // sheva
+            (11, 15), // hataf segol
+            (12, 16), // hataf patah
+            (13, 17), // hataf qamats
+            (14, 23), // hiriq
+            (15, 18), // tsere
+            (16, 19), // segol
+            (17, 20), // patah
+            (18, 21), // qamats
+            (19, 14), // holam
+            (20, 24), // qubuts
+            (21, 12), // dagesh
+            (22, 25), // meteg
+            (23, 13), // rafe
+            (24, 10), // shin dot
+            (25, 11), // sin dot
+            (26, 26), // point varika
+        ];
+        for (from, to) in hebrew {
+            m[from as usize] = to;
+        }
+        m[84] = 4;
+        m[91] = 5;
+        m[103] = 3;
+        Ucd { ccc, known, mcc_map: m }
+    }
+    #[inline]
+    fn ccc(&self, c: char) -> u8 {
+        self.ccc[c as usize]
+    }
+    #[inline]
+    fn mcc(&self, c: char) -> u8 {
+        self.mcc_map[self.ccc[c as usize] as usize]
+    }
+    #[inline]
+    fn known(&self, c: char) -> bool {
+        self.known[c as usize] != 0
+    }
+    #[inline]
+    fn is_mark(&self, c: char) -> bool {
+        self.mcc(c) != 0
+    }
+
+    // ----- reference models -------------------------------------------------------------------
+
+    /// stable insertion sort by modified class (deliberately not std's sort)
+    fn stable_sort_run(&self, run: &mut [char]) {
+        for i in 1..run.len() {
+            let mut j = i;
+            while j > 0 && self.mcc(run[j - 1]) > self.mcc(run[j]) {
+                run.swap(j - 1, j);
+                j -= 1;
+            }
+        }
+    }
+
+    /// every maximal run of marks sorted stably by modified class; nothing else moves
+    fn sort_runs(&self, v: &mut [char]) {
+        let n = v.len();
+        let mut i = 0;
+        while i < n {
+            if !self.is_mark(v[i]) {
+                i += 1;
+                continue;
+            }
+            let s = i;
+            while i < n && self.is_mark(v[i]) {
+                i += 1;
+            }
+            self.stable_sort_run(&mut v[s..i]);
+        }
+    }
+
+    fn model_default(&self, text: &[char]) -> Vec<char> {
+        let mut v = text.to_vec();
+        self.sort_runs(&mut v);
+        v
+    }
+
+    /// UTR #53 (AMTRA) on one maximal run S of non-starters.
+    fn amtra_run(&self, run: &[char]) -> Vec<char> {
+        // step 1: canonical ordering of the run
+        let mut s = run.to_vec();
+        self.stable_sort_run(&mut s);
+        // 2a: shadda characters (ccc = 33) to the beginning of S
+        let mut out: Vec<char> = s.iter().copied().filter(|&c| self.ccc(c) == 33).collect();
+        out.extend(s.iter().copied().filter(|&c| self.ccc(c) != 33));
+        // 2b: if the sequence of ccc=230 characters begins with MCMs, move those to the beginning of S
+        // 2c: same for ccc=220, placed before the 230 MCMs
+        for class in [230u8, 220u8] {
+            if let Some(first) = out.iter().position(|&c| self.ccc(c) == class) {
+                let mut k = first;
+                while k < out.len() && self.ccc(out[k]) == class && is_mcm(out[k]) {
+                    k += 1;
+                }
+                if k > first {
+                    let moved: Vec<char> = out.drain(first..k).collect();
+                    let mut v = moved;
+                    v.extend(out.into_iter());
+                    out = v;
+                }
+            }
+        }
+        out
+    }
+
+    fn model_arabic(&self, text: &[char]) -> Vec<char> {
+        let mut out = Vec::with_capacity(text.len());
+        let n = text.len();
+        let mut i = 0;
+        while i < n {
+            if !self.is_mark(text[i]) {
+                out.push(text[i]);
+                i += 1;
+                continue;
+            }
+            let s = i;
+            while i < n && self.is_mark(text[i]) {
+                i += 1;
+            }
+            out.extend(self.amtra_run(&text[s..i]));
+        }
+        out
+    }
+
+    fn is_above_thai_lao(&self, c: char) -> bool {
+        let cp = c as u32;
+        (0x0E00..0x0F00).contains(&cp) && tb::THAI_LAO_MN.contains(&cp) && !THAI_LAO_BELOW.contains(&cp)
+    }
+
+    /// Thai/Lao: the first `limit` AM vowels are split into nikhahit + aa, the nikhahit goes in front of
+    /// the above-base marks that precede the AM; then the mark runs are sorted.
+    /// `same_script`: only above-base marks of the AM's own block count; `presort`: sort first.
+    fn model_thai_lao(&self, text: &[char], same_script: bool, presort: bool, limit: usize) -> Vec<char> {
+        let mut src = text.to_vec();
+        if presort {
+            self.sort_runs(&mut src);
+        }
+        let mut out: Vec<char> = Vec::with_capacity(src.len() + 4);
+        let mut done = 0usize;
+        for &c in &src {
+            match am_split(c) {
+                Some((nik, aa)) if done < limit => {
+                    done += 1;
+                    let lao = (c as u32) >= 0x0E80;
+                    let mut j = out.len();
+                    while j > 0
+                        && self.is_above_thai_lao(out[j - 1])
+                        && (!same_script || ((out[j - 1] as u32) >= 0x0E80) == lao)
+                    {
+                        j -= 1;
+                    }
+                    out.insert(j, nik);
+                    out.push(aa);
+                }
+                _ => out.push(c),
+            }
+        }
+        self.sort_runs(&mut out);
+        out
+    }
+
+    /// Indic: dotted circle between prohibited vowel sequences, split vowels decomposed, mark runs
+    /// sorted, Bengali ya+nukta -> yya, Kannada ra-halant-ZWJ swap at the start of the text.
+    /// `overlap`: every adjacent prohibited pair of the input gets a circle (otherwise pairs are
+    /// matched left to right without overlap); `presort`: sort before looking for pairs.
+    fn model_indic(&self, text: &[char], beng: bool, knda: bool, overlap: bool, presort: bool) -> Vec<char> {
+        let mut src = text.to_vec();
+        if presort {
+            self.sort_runs(&mut src);
+        }
+        // 1. vowel constraints
+        let mut a: Vec<char> = Vec::with_capacity(src.len() + 4);
+        let n = src.len();
+        let mut i = 0;
+        while i < n {
+            if i + 2 < n && src[i] == REPH_I[0] && src[i + 1] == REPH_I[1] && src[i + 2] == REPH_I[2] {
+                a.extend_from_slice(&[REPH_I[0], REPH_I[1], DOTTED_CIRCLE, REPH_I[2]]);
+                i += 3;
+                continue;
+            }
+            a.push(src[i]);
+            if i + 1 < n && is_prohibited(src[i], src[i + 1]) {
+                a.push(DOTTED_CIRCLE);
+                if !overlap {
+                    a.push(src[i + 1]);
+                    i += 2;
+                    continue;
+                }
+            }
+            i += 1;
+        }
+        // 2. split vowels
+        let mut b: Vec<char> = Vec::with_capacity(a.len() + 4);
+        for &c in &a {
+            match matra_split(c) {
+                Some(parts) => {
+                    for &p in parts.iter() {
+                        if p != 0 {
+                            b.push(ch(p));
+                        }
+                    }
+                }
+                None => b.push(c),
+            }
+        }
+        // 3. marks
+        self.sort_runs(&mut b);
+        // 4. Bengali ya + nukta
+        if beng {
+            let (yya, parts) = tb::YA_NUKTA;
+            let (ya, nukta) = (ch(parts[0]), ch(parts[1]));
+            let mut c2 = Vec::with_capacity(b.len());
+            let mut i = 0;
+            while i < b.len() {
+                if i + 1 < b.len() && b[i] == ya && b[i + 1] == nukta {
+                    c2.push(ch(yya));
+                    i += 2;
+                } else {
+                    c2.push(b[i]);
+                    i += 1;
+                }
+            }
+            b = c2;
+        }
+        // 5. Kannada
+        if knda && b.len() >= 3 && b[0] == KNDA_RA && b[1] == KNDA_HALANT && b[2] == ZWJ {
+            b.swap(1, 2);
+        }
+        b
+    }
+
+    fn model_khmer(&self, text: &[char]) -> Vec<char> {
+        let mut out = Vec::with_capacity(text.len() + 4);
+        for &c in text {
+            if KHMER_SPLIT.contains(&c) {
+                out.push(KHMER_E);
+            }
+            out.push(c);
+        }
+        self.sort_runs(&mut out);
+        out
     }
 }
+
+fn same_multiset(a: &[char], b: &[char]) -> bool {
+    if a.len() != b.len() {
+        return false;
+    }
+    let mut x = a.to_vec();
+    let mut y = b.to_vec();
+    x.sort_unstable();
+    y.sort_unstable();
+    x == y
+}
+
+fn hexs(v: &[char]) -> J {
+    let mut s = String::with_capacity(v.len() * 5);
+    for (i, c) in v.iter().enumerate() {
+        if i > 0 {
+            s.push(' ');
+        }
+        s.push_str(&format!("{:04X}", *c as u32));
+    }
+    J::S(s)
+}
+
+fn tag_str(tag: u32) -> String {
+    let b = tag.to_be_bytes();
+    if b.iter().all(|c| (0x20..0x7f).contains(c)) {
+        format!("'{}'", String::from_utf8_lossy(&b))
+    } else {
+        format!("0x{:08X}", tag)
+    }
+}
+
+fn count(v: &[char], c: char) -> usize {
+    v.iter().filter(|&&x| x == c).count()
+}
+
+//@@PART2@@
